@@ -26,17 +26,17 @@ theorem after_converged_ts0_eq_iterate (clk : Clock C) (cfg : Cfg) (hIt : 0 < cf
     let r := runAll clk cfg (startRun clk cfg v0 c0) tapes
     let r' := stepRun clk cfg r tape
     r.status = .running → r'.last = .accepted →
-    ∃ v, (newton cfg 0 tape r.sol).sol.its.head? = some v ∧ r'.sol.tss.head? = some v ∧
+    ∃ v, (solveStep cfg tape r.sol).sol.its.head? = some v ∧ r'.sol.tss.head? = some v ∧
       r'.sol.its.head? = some v ∧ r'.accepted = v :: r.accepted := by
   intro r r' hrun hlast
   have hinv : Inv clk cfg v0 r := inv_runAll clk cfg v0 hIt hTs tapes _ (inv_start clk cfg v0 c0 hIt hTs)
-  have hlen := newton_its_length cfg tape 0 r.sol hinv.itsLen
+  have hlen := solveStep_its_length cfg tape r.sol hinv.itsLen
   have hspec := stepRun_spec clk cfg r tape hrun
   simp only [] at hspec
   rcases hspec with ⟨_, c2, _, hsol, _, _, hacc, _, _, _⟩ | ⟨_, _, _, _, hl, _⟩ | ⟨_, _, _, _, _, _, _, hl⟩ |
       ⟨_, _, hl, _⟩ | ⟨_, _, _, _, _, _, _, _, _, hl⟩ | ⟨_, _, _, _, hl, _⟩
-  · obtain ⟨v, rest, hv⟩ : ∃ v rest, (newton cfg 0 tape r.sol).sol.its = v :: rest := by
-      cases h : (newton cfg 0 tape r.sol).sol.its with
+  · obtain ⟨v, rest, hv⟩ : ∃ v rest, (solveStep cfg tape r.sol).sol.its = v :: rest := by
+      cases h : (solveStep cfg tape r.sol).sol.its with
       | nil => rw [h] at hlen; simp at hlen; omega
       | cons v rest => exact ⟨v, rest, rfl⟩
     rw [updateSolution_eq cfg _ v rest hv] at hsol
@@ -62,15 +62,15 @@ theorem after_failed_iterate_eq_ts0 (clk : Clock C) (cfg : Cfg) (hIt : 0 < cfg.n
   intro r r' hrun hlast
   have hinv : Inv clk cfg v0 r := inv_runAll clk cfg v0 hIt hTs tapes _ (inv_start clk cfg v0 c0 hIt hTs)
   have hinv' : Inv clk cfg v0 r' := inv_step clk cfg v0 hIt hTs r tape hinv
-  have htss := newton_tss cfg tape 0 r.sol
+  have htss := solveStep_tss cfg tape r.sol
   have hspec := stepRun_spec clk cfg r tape hrun
   simp only [] at hspec
   rcases hspec with ⟨_, _, _, _, _, _, _, _, _, hl⟩ | ⟨_, _, _, _, hl, _⟩ | ⟨_, _, _, _, _, _, _, hl⟩ |
       ⟨_, _, hl, _⟩ | ⟨_, c2, _, hsol, _, _, hacc, _, hst, _⟩ | ⟨_, _, _, _, hl, _⟩
   case inr.inr.inr.inr.inl =>
-    have hw : (newton cfg 0 tape r.sol).sol.tss = window cfg.nTs r.accepted v0 := by rw [htss]; exact hinv.hist
-    obtain ⟨w, rest, hwr⟩ : ∃ w rest, (newton cfg 0 tape r.sol).sol.tss = w :: rest := by
-      cases h : (newton cfg 0 tape r.sol).sol.tss with
+    have hw : (solveStep cfg tape r.sol).sol.tss = window cfg.nTs r.accepted v0 := by rw [htss]; exact hinv.hist
+    obtain ⟨w, rest, hwr⟩ : ∃ w rest, (solveStep cfg tape r.sol).sol.tss = w :: rest := by
+      cases h : (solveStep cfg tape r.sol).sol.tss with
       | nil => have := window_length cfg.nTs r.accepted v0; rw [← hw, h] at this; simp at this; omega
       | cons w rest => exact ⟨w, rest, rfl⟩
     rw [resetIterate_eq _ w rest hwr] at hsol
@@ -231,14 +231,14 @@ theorem tm_retry_rewinds (p : C09.Params) (s s' : C09.TM)
     excludes an exception from the convergence hook.) -/
 theorem ends_at_final_time_or_raises_tm (p : C09.Params) (A : C09.Admissible p) (hmin : 0 < p.dtMin)
     (cfg : Cfg) (v0 : V) (tapes : List (List (Iter V)))
-    (hok : ∀ t ∈ tapes, NoBoth cfg t ∧ cfg.maxIt < t.length)
+    (hok : ∀ t ∈ tapes, NoBoth cfg t ∧ cfg.maxIt < t.length) (hlin : cfg.linear = false)
     (hlen : ((p.recompMax : Rat) + 1) *
               ((p.timeFinal - p.timeInit) + p.dtMin * ((p.schedule.length - 1 : Nat) : Rat))
               ≤ p.dtMin * (tapes.length : Rat)) :
     let r := runAll (tmClock p) cfg (startRun (tmClock p) cfg v0 (C09.init p)) tapes
     (r.status = .finished ∧ C09.finalTimeReached p r.clock = true) ∨ ∃ e, r.status = .raised e := by
   intro r
-  obtain ⟨os, hl, hs⟩ := sim_runAll p cfg tapes hok _ _ (sim_start p cfg v0)
+  obtain ⟨os, hl, hs⟩ := sim_runAll p cfg tapes hok hlin _ _ (sim_start p cfg v0)
   have hterm := C09.run_terminates p A hmin os (by rw [hl]; exact hlen)
   have hdoc := (C09.only_documented_errors p A os).2
   rcases hs with ⟨_, b, _⟩ | ⟨a, _, c, _⟩ | ⟨e, _, a, _⟩ | ⟨_, e', _, b⟩
@@ -291,12 +291,12 @@ theorem ends_at_final_time_or_raises_tm (p : C09.Params) (A : C09.Admissible p) 
     the simulation): `dt_min · #accepted ≤ (t_final − t_init) + dt_min · len(schedule)`, whatever the tapes. -/
 theorem accepted_steps_bounded_tm (p : C09.Params) (A : C09.Admissible p) (hmin : 0 < p.dtMin)
     (cfg : Cfg) (v0 : V) (tapes : List (List (Iter V)))
-    (hok : ∀ t ∈ tapes, NoBoth cfg t ∧ cfg.maxIt < t.length) :
+    (hok : ∀ t ∈ tapes, NoBoth cfg t ∧ cfg.maxIt < t.length) (hlin : cfg.linear = false) :
     let r := runAll (tmClock p) cfg (startRun (tmClock p) cfg v0 (C09.init p)) tapes
     (r.status = .running ∨ r.status = .finished) →
     p.dtMin * (r.acceptedT.length : Rat) ≤ (p.timeFinal - p.timeInit) + p.dtMin * (p.schedule.length : Rat) := by
   intro r hst
-  obtain ⟨os, _, hs⟩ := sim_runAll p cfg tapes hok _ _ (sim_start p cfg v0)
+  obtain ⟨os, _, hs⟩ := sim_runAll p cfg tapes hok hlin _ _ (sim_start p cfg v0)
   have hb := C09.accepted_steps_bounded p A hmin os
   rcases hs with ⟨_, _, _, d⟩ | ⟨_, _, _, d⟩ | ⟨e, _, a, _⟩ | ⟨e, _, a, _⟩
   · show p.dtMin * ((runAll (tmClock p) cfg (startRun (tmClock p) cfg v0 (C09.init p)) tapes).acceptedT.length : Rat) ≤ _
@@ -305,6 +305,126 @@ theorem accepted_steps_bounded_tm (p : C09.Params) (A : C09.Admissible p) (hmin 
     rw [d]; exact hb
   · rcases hst with h | h <;> (have : r.status = _ := h; rw [a] at this; cases this)
   · rcases hst with h | h <;> (have : r.status = _ := h; rw [a] at this; cases this)
+
+/-- "Within the recomputation budget": the ONLY way a run raises is the time-manager call of
+    `after_nonlinear_failure` (or the linear-problem `ValueError` of that hook) on the clock the run stopped
+    at — for every clock, every tape history. -/
+theorem raises_only_through_failure_hook (clk : Clock C) (cfg : Cfg) (v0 : V) (c0 : C) (tapes : List (List (Iter V))) :
+    let r := runAll clk cfg (startRun clk cfg v0 c0) tapes
+    ∀ e, r.status = .raised e → retryOf clk cfg r.clock = .error e := by
+  intro r
+  have key : ∀ (tapes : List (List (Iter V))) (r : Run V C),
+      (∀ e, r.status = .raised e → retryOf clk cfg r.clock = .error e) →
+      ∀ e, (runAll clk cfg r tapes).status = .raised e → retryOf clk cfg (runAll clk cfg r tapes).clock = .error e := by
+    intro tapes
+    induction tapes with
+    | nil => intro r h; exact h
+    | cons t ts ih =>
+      intro r h
+      rw [runAll_cons]
+      apply ih
+      by_cases hr : r.status = .running
+      case neg => rw [stepRun_not_running clk cfg r t hr]; exact h
+      have hspec := stepRun_spec clk cfg r t hr
+      simp only [] at hspec
+      intro e he
+      rcases hspec with ⟨_, c2, _, _, _, _, _, _, hst, _⟩ | ⟨_, _, _, hst, _⟩ | ⟨_, _, _, _, _, _, hst, _⟩ |
+          ⟨_, hst, _⟩ | ⟨_, c2, _, _, _, _, _, _, hst, _⟩ | ⟨_, e', he', hst, _, _, _, _, hclk⟩
+      · rw [hst] at he; rcases statusOf_cases clk c2 with ⟨h1, _⟩ | ⟨h1, _⟩ <;> (rw [h1] at he; cases he)
+      · rw [hst] at he; cases he
+      · rw [hst] at he
+        rcases statusOf_cases clk (clk.advance r.clock) with ⟨h1, _⟩ | ⟨h1, _⟩ <;> (rw [h1] at he; cases he)
+      · rw [hst] at he; cases he
+      · rw [hst] at he; rcases statusOf_cases clk c2 with ⟨h1, _⟩ | ⟨h1, _⟩ <;> (rw [h1] at he; cases he)
+      · rw [hst] at he
+        have : e' = e := by injection he
+        subst this
+        rw [hclk]; exact he'
+  apply key tapes
+  intro e he
+  rcases statusOf_cases clk c0 with ⟨h1, _⟩ | ⟨h1, _⟩ <;>
+    (have : (startRun clk cfg v0 c0 : Run V C).status = statusOf clk c0 := rfl; rw [this, h1] at he; cases he)
+
+/-- … and for the real time-manager model that call raises `ValueError` exactly when the budget is used up:
+    constant step, `_recomp_num` reached `recomp_max`, or `dt` already is `dt_min` (the remaining error,
+    `IndexError` of the schedule correction, is excluded for admissible parameters by
+    C09.only_documented_errors, see `ends_at_final_time_or_raises_tm`). -/
+theorem tm_raise_means_budget_exhausted (p : C09.Params) (c : C09.TM) (e : String)
+    (h : (tmClock p).retry c = .error e) :
+    (e = "ValueError" ∧ (p.constantDt = true ∨ ¬((c.recompNum : Int) < p.recompMax) ∨ c.dt = p.dtMin)) ∨
+      e = "IndexError" := by
+  simp only [tmClock] at h
+  split at h
+  · rename_i hc
+    left; exact ⟨by injection h with h; exact h.symm, Or.inl hc⟩
+  · split at h
+    · cases h
+    · rename_i s2 e' heq
+      have he : e = errName e' := by injection h with h; exact h.symm
+      unfold C09.computeTimeStep at heq
+      simp only [Bool.not_true, Bool.false_and, Bool.false_eq_true, if_false] at heq
+      split at heq
+      · rename_i hc; simp_all
+      · split at heq
+        · split at heq
+          · rename_i hdt
+            left
+            have : e' = .dtMinReached := by injection heq with _ h2; injection h2 with h2; exact h2.symm
+            subst this
+            exact ⟨he, Or.inr (Or.inr hdt)⟩
+          · -- error out of the schedule correction
+            cases e' with
+            | indexError => right; exact he
+            | _ => left; refine ⟨he, ?_⟩
+                   unfold C09.correct at heq
+                   simp only [] at heq
+                   split at heq <;> (injection heq with _ h2; cases h2)
+        · rename_i hnot
+          left
+          have : e' = .recompExhausted := by injection heq with _ h2; injection h2 with h2; exact h2.symm
+          subst this
+          exact ⟨he, Or.inr (Or.inl hnot)⟩
+
+/-- Entry point `LinearSolver` (`_is_nonlinear_problem() = False`): a linear solve that does not converge
+    (NaN in the solution) raises, and leaves iterates, time steps and the accepted sequence untouched; a
+    linear solve never makes more than one iteration. -/
+theorem linear_failure_raises_untouched (clk : Clock C) (cfg : Cfg) (hlin : cfg.linear = true)
+    (r : Run V C) (tape : List (Iter V)) (hrun : r.status = .running) (hne : tape ≠ [])
+    (hfail : (solveStep cfg tape r.sol).fin ≠ .converged) :
+    let r' := stepRun clk cfg r tape
+    r'.status = .raised "ValueError" ∧ r'.sol = r.sol ∧ r'.accepted = r.accepted ∧ (solveStep cfg tape r.sol).k = 0 := by
+  intro r'
+  have hss : (solveStep cfg tape r.sol).fin = .diverged ∧ (solveStep cfg tape r.sol).sol = r.sol ∧
+      (solveStep cfg tape r.sol).k = 0 := by
+    unfold solveStep at hfail ⊢
+    rw [if_pos hlin] at hfail ⊢
+    cases tape with
+    | nil => exact absurd rfl hne
+    | cons it tape =>
+      simp only [linearSolve] at hfail ⊢
+      split
+      · rename_i hc; simp [hc] at hfail
+      · exact ⟨rfl, rfl, rfl⟩
+  have hspec := stepRun_spec clk cfg r tape hrun
+  simp only [] at hspec
+  rcases hspec with ⟨hf, _⟩ | ⟨hf, _⟩ | ⟨hf, _⟩ | ⟨hf, _⟩ | ⟨_, c2, hc2, _⟩ | ⟨_, e, he, hst, _, hsol, hacc, _⟩
+  · exact absurd hf hfail
+  · exact absurd hf hfail
+  · rw [hss.1] at hf; cases hf
+  · rw [hss.1] at hf; cases hf
+  · have := (retryOf_ok clk cfg _ c2 hc2).1; rw [hlin] at this; cases this
+  · have he' : e = "ValueError" := by
+      unfold retryOf at he; rw [if_pos hlin] at he; injection he with he; exact he.symm
+    subst he'
+    exact ⟨hst, by rw [hsol]; exact hss.2.1, hacc, hss.2.2⟩
+
+theorem linear_single_iteration (cfg : Cfg) (hlin : cfg.linear = true) (tape : List (Iter V)) (s : Sol V) :
+    (solveStep cfg tape s).k ≤ 1 := by
+  unfold solveStep
+  rw [if_pos hlin]
+  cases tape with
+  | nil => simp [linearSolve]
+  | cons it tape => simp only [linearSolve]; split <;> simp
 
 /-- One Newton solve makes at most `max_iterations + 1` iterations (the loop condition is
     `num_iteration <= max_iterations` with `num_iteration` counted from 0), never more than the tape has
@@ -419,6 +539,18 @@ def exTmTapes : List (List (Iter Int)) := [[⟨1, true, false⟩], [⟨1, false,
 example : let r := runAll (tmClock exTm) exCfg (startRun (tmClock exTm) exCfg (10 : Int) (C09.init exTm)) exTmTapes
     r.status = .finished ∧ r.acceptedT = [2, 3/2, 1, 3/4, 1/2, 0] ∧ r.accepted = [15, 14, 13, 12, 11, 10] := by
   decide +kernel
+
+-- linear entry point: a NaN solution at the second step raises and leaves the state of the accepted first step
+example : let cfgL : Cfg := { exCfg with linear := true }
+    let r1 := runAll exClk cfgL (startRun exClk cfgL (10 : Int) ⟨0, 2, 0⟩) [[⟨3, true, false⟩]]
+    let r2 := stepRun exClk cfgL r1 [⟨7, false, true⟩]
+    r1.status = .running ∧ r1.sol.tss = [13, 10] ∧ (solveStep cfgL [⟨7, false, true⟩] r1.sol).fin ≠ .converged ∧
+    r2.status = .raised "ValueError" ∧ r2.sol.its = [13, 10] ∧ r2.sol.tss = [13, 10] ∧
+    (retryOf exClk cfgL r2.clock).isOk = false := by decide +kernel
+
+-- `tm_raise_means_budget_exhausted` is not vacuous: dt = dt_min raises ValueError
+example : ((tmClock exTm).retry { time := 1/8, dt := 1/8, timeIndex := 1, recompNum := 0, idx := 1, aboutToHit := false }).isOk
+    = false := by decide +kernel
 
 end Examples
 
